@@ -45,7 +45,7 @@ CHECKS = {
   "exhaustive enumeration of an edit neighbourhood and a field lattice; four-way agreement oracle"),
  "C04": ("exploration", "proc", "5/C04",
   "Bounded exploration of a universally quantified safety claim: every input of the byte / token / context / number / date-time / corpus / decor universes and a growth family (units repeated up to 1024-16384 times in 8 frames, run in sacrificial worker processes) is given to 12 entry points and everything returned is printed, debug-printed, cloned, dropped, re-parsed, despanned and re-serialized in a build with debug assertions and overflow checks; no panic, no worker death, wall time within a linear budget, hard watchdog.",
-  "The property holds for all inputs only as far as the bounded universes reach; silent out-of-bounds reads would need a memory checker (the checked from_utf8 branch and slice indexing turn reachable ones into panics in this build).",
+  "The property holds for all inputs only as far as the bounded universes reach. The main enumeration runs in a build with debug assertions and overflow checks; the build users ship (no debug assertions) is covered by a release differential (11 universes, outcomes of 7 entry points equal in both builds) and by valgrind memcheck over the byte-substitution universe (13 byte values quick, all 256 thorough).",
   "exhaustive enumeration of bounded input universes on all entry points under catch_unwind, process isolation and a watchdog"),
  "C05": ("exploration", "proc", "5/C05",
   "Every combination of header kind x depth, dotted-key depth and up to 2-3 value constructs x depth over a depth set around the limit (1, 2, 39, 40, 78-81, 200, 3000) is parsed, printed, debug-printed, cloned, dropped, despanned and deserialized on a 2 MiB thread inside a sacrificial process, in an opt-level-0 build and a release build; the worker must survive, rejection must be the recursion-limit error (recognised by what the library itself says for two reference documents far beyond the limit, not by a fixed wording), accepted trees are at most K = 160 deep, single constructs are accepted below 80 and rejected from 80.",
